@@ -596,7 +596,8 @@ fn c08_interval(nticks: usize) {
   e::note(format!("interval{}({}) on {}", if use_at { "_at(past)" } else { "" }, p, exec.name()));
   let mut timely = true;
   let mut steps = 0;
-  while probe.len() < nticks && steps < nticks * 4 + 2 {
+  // few steps, every combination of them: a longer horizon only fits a budget by never varying the early steps
+  while probe.len() < nticks && steps < nticks + 3 {
     steps += 1;
     let dt = [1u64, 2, 5][e::choose(3) as usize];
     if dt != 1 {
